@@ -638,6 +638,12 @@ func genTrace(prop string, seed uint64, run int, o genOpts) *Trace {
 	if prop == "C10" {
 		return genNodeTrace(seed, run, o)
 	}
+	if prop == "C17" {
+		return genHeapTrace(seed, run, o)
+	}
+	if prop == "C16" {
+		return genRaceTrace(seed, run, o)
+	}
 	r := NewRNG(mix2(mix2(seed, hashStr(prop+"/"+o.domain)), uint64(run)))
 	p := profileFor(prop)
 	tr := &Trace{Prop: prop, Seed: seed, Run: run, Domain: o.domain}
